@@ -400,7 +400,7 @@ fn run_schedule(cfg: &Config, proofs: &Arc<Vec<Proof>>, prefix: &[usize]) -> Exe
     let w = env::new_world(env::empty_image());
     let core = if cfg.replica { init_replica_on(&w) } else { init_writer_on(&w) };
     {
-        let mut g = w.lock().unwrap();
+        let mut g = w.lock().unwrap_or_else(|e| e.into_inner());
         g.yield_all = true;
         g.trace = Some(vec![]);
     }
@@ -426,7 +426,7 @@ fn run_schedule(cfg: &Config, proofs: &Arc<Vec<Proof>>, prefix: &[usize]) -> Exe
                 cur_call[t].store(k, Ordering::SeqCst);
                 let r = run_shared(&sc, call, &proofs).await;
                 let returned = step.load(Ordering::SeqCst);
-                recs.lock().unwrap().push(CallRec { task: t, k, invoked, returned, result: plain_result_norm(call, r) });
+                recs.lock().unwrap_or_else(|e| e.into_inner()).push(CallRec { task: t, k, invoked, returned, result: plain_result_norm(call, r) });
             }
         })));
     }
@@ -464,7 +464,7 @@ fn run_schedule(cfg: &Config, proofs: &Arc<Vec<Proof>>, prefix: &[usize]) -> Exe
         flags[i].0.store(false, Ordering::SeqCst);
         step.fetch_add(1, Ordering::SeqCst);
         // the tag attributes storage operations to the running task's current call
-        w.lock().unwrap().cur_tag = (i * 16 + cur_call[i].load(Ordering::SeqCst) + 1) as u32;
+        w.lock().unwrap_or_else(|e| e.into_inner()).cur_tag = (i * 16 + cur_call[i].load(Ordering::SeqCst) + 1) as u32;
         let mut cx = Context::from_waker(&wakers[i]);
         let polled = crate::drv::guard_sync(|| tasks[i].as_mut().unwrap().as_mut().poll(&mut cx));
         match polled {
@@ -488,7 +488,7 @@ fn run_schedule(cfg: &Config, proofs: &Arc<Vec<Proof>>, prefix: &[usize]) -> Exe
     drop(tasks);
     // diagnostic only: did storage operations of two calls interleave?
     let interleaved = {
-        let g = w.lock().unwrap();
+        let g = w.lock().unwrap_or_else(|e| e.into_inner());
         let tr = g.trace.as_ref().unwrap();
         let mut seen_done: Vec<u32> = vec![];
         let mut cur = 0u32;
@@ -506,7 +506,7 @@ fn run_schedule(cfg: &Config, proofs: &Arc<Vec<Proof>>, prefix: &[usize]) -> Exe
         }
         inter
     };
-    w.lock().unwrap().yield_all = false;
+    w.lock().unwrap_or_else(|e| e.into_inner()).yield_all = false;
     let final_state = match Arc::try_unwrap(sc.0) {
         Ok(m) => {
             let mut c = m.into_inner();
@@ -514,7 +514,7 @@ fn run_schedule(cfg: &Config, proofs: &Arc<Vec<Proof>>, prefix: &[usize]) -> Exe
         }
         Err(_) => "unavailable".into(),
     };
-    let calls = recs.lock().unwrap().clone();
+    let calls = recs.lock().unwrap_or_else(|e| e.into_inner()).clone();
     Exec { running_enabled, points, choices, calls, deadlock, final_state, interleaved_storage: interleaved, panicked }
 }
 
@@ -724,7 +724,7 @@ pub fn run(tier: &str) -> i32 {
                     if std::env::var("HCVERIF_C15_DEBUG").is_ok() && r.executions > 20_000 {
                         eprintln!("{} clock {} -> {} schedules, {} points: {:?}", name, clock, r.executions, r.max_points, cfg.tasks.iter().map(|t| t.iter().map(|c| c.brief()).collect::<Vec<_>>()).collect::<Vec<_>>());
                     }
-                    let mut g = per_family.lock().unwrap();
+                    let mut g = per_family.lock().unwrap_or_else(|e| e.into_inner());
                     let e = g.entry(format!("{name} / clock {}", if clock == 1 { "frozen" } else { "+1ms per call" })).or_insert((0, 0, 0, 0, 0));
                     e.0 += 1;
                     e.1 += r.executions;
